@@ -12,7 +12,12 @@ Layers (each is a set of obligations generated from the real source on every run
      _parse_pack_info (any number of pack streams, all digest layouts) against the format grammar; BOUNDED (thorough
      tier): _parse_folder, _parse_unpack_info, _parse_substreams_info (small shapes, every stream byte symbolic);
      BOUNDED native scope (every run): reference writers x layouts x member sets on the real code, the stand-in for
-     _parse_header / _parse_main_header / _parse_streams_info / _parse_files_info, which are not under contract;
+     _parse_files_info / _parse_encoded_header / _skip_substreams_info, which are not under contract;
+     round 7: the header DISPATCHERS are under discharged contracts over any stream -- _parse_header (signature header, CRCs
+     uninterpreted), _parse_end_header, _parse_main_header (incl. an ArchiveProperties list of any length), _parse_streams_info
+     (which section parser runs where, in grammar order, final position, exact refusal condition; the section parsers are seen
+     through call-site views) -- and so is the facade chain SevenZipFile.__init__/__enter__/__exit__/list/needs_password/
+     extractall -> SevenZipReader.__init__ -> _parse_header (the reader is built on the facade's own file);
  (b) _build_file_list (any number of files / folders): file i gets its name, attributes and the size of its
      sub-stream; the r-th stream-bearing file goes to the folder k with cum(k) <= r < cum(k) + num_streams(k);
  (c) extractall / _decompress_folder: the bytes handed to the decoder chain of folder k are
@@ -4440,6 +4445,8 @@ ASSUMED_MODELS = [
     "str.split(sep): n >= 1 pieces without sep, s starts with piece 0 (+ sep when n > 1) and ends with the last piece, n == 1 iff sep not in s",
     "ZipFile.read raises RuntimeError on an encrypted member (ghost flag zip_read_refused); APPNOTE 4.4.4: general purpose bit 0 = encrypted",
     "int-valued enum members compare / hash / print as their ints (PY-INTENUM); with-statement over a plain module class = PEP 343 expansion",
+    "zlib.crc32 over bytes read from a stream: uninterpreted function of (stream, offset, length); io.BytesIO over such bytes: a stream of "
+    "that length at position 0; hasattr(x, name) is True for an abstract object the pack models with a method of that name",
 ]
 ASSUMPTIONS = [
     "PY-INT with exact bit-vector encoding", "PY-GEN", "EXC-ANY for un-modelled library calls", "logger calls dropped (PY-LOG)",
@@ -4456,8 +4463,16 @@ ASSUMPTIONS = [
     "a ZIP/TAR/7z member above max_memory_size / MAX_ARCHIVE_FILE_SIZE is skipped (C12's limits); members are distinct names: no two "
     "non-directory 7z entries resolve to one normalised path (the per-path counting pass of _extract_from_7z_optimized is introduced as the "
     "occurrence count PCOUNT, which is 1 for every member under this assumption)",
-    "_parse_files_info / _parse_header / _parse_main_header / _parse_streams_info are NOT under contract: their stand-in is the BOUNDED "
-    "native-scope obligation (replay/C10.py on the real code at every run)",
+    "_parse_files_info / _parse_encoded_header / _skip_substreams_info are NOT under contract (filter comprehension, index stores into "
+    "symbolic-length lists, UTF-16 decoding: outside the engine's subset): their stand-in is the BOUNDED native-scope obligation "
+    "(replay/C10.py on the real code at every run) and, for _parse_files_info, the BOUNDED native function-level obligation",
+    "call-site VIEWS used while the header dispatchers are verified (reported as assumed contracts): _parse_pack_info, _parse_main_header, "
+    "_parse_end_header, SevenZipReader.extractall views are IMPLIED by the verified contracts of these functions (end position / refusal "
+    "are functions of stream and position; the PackInfo `none` case); _parse_unpack_info / _parse_substreams_info views rest on their "
+    "BOUNDED (thorough tier) contracts; _parse_files_info / _parse_encoded_header / SevenZipReader.list / needs_password views only say "
+    "`deterministic in (stream, position)` resp. `the call is recorded`: these functions are not verified",
+    "ArchiveProperties chain: PLEND / PLBAD (where the property list ends, whether a read falls short) are primitive-recursive spec "
+    "functions used through instances of their defining equations at the loop head (like NUMPOS / DCNT)",
     "NUMPOS / DCNT (positions after i NUMBERs, defined digests among the first i) are primitive-recursive spec functions used through "
     "instances of their defining equations and two monotonicity lemmas proved by induction",
 ]
